@@ -162,6 +162,22 @@ CHECKS = {
         design_ref="DESIGN.md section 5 C05, section 10",
         note=(TB_COMMON + "The data-dependent scale is produced by tf reductions / float32 log that are not modelled: only the exposed scale is used. 'auto' no-clipping judged with a 2^-18 band. One known finding (legacy auto scale 0 for an all-zero channel)."),
         technique="certified relational checker (soundness proved in Coq) evaluated by vm_compute on the implementation's data"),
+    "C11": dict(
+        category="proof",
+        text=("The call methods of 13 layer classes (QDense, QConv1D/2D, QConv2DTranspose, QDepthwiseConv2D, QSeparableConv1D/2D, "
+              "QScaleShift, QAveragePooling2D, QGlobalAveragePooling2D, QSimpleRNNCell, QLSTMCell, QGRUCell) are symbolically executed on "
+              "every run into data-flow expressions (tools/translate/layercalls.py). Coq theorems (Properties/C11.v): a sound decision "
+              "procedure for equality of layer programs under EVERY interpretation of the TensorFlow operations, every weight, input and flag "
+              "setting; the generated program of each feed-forward layer equals the stock computation on quantized weights followed by the "
+              "activation; for all weight-bearing layers and the three recurrent cells (both implementations, reset_after, dropout branches) "
+              "erasing the quantizers gives the same data flow whichever quantizers are configured; reported quantizers are the applied ones in "
+              "weight order. Differential: random geometries/weights/quantizers against stock Keras layers with quantizer(weights); cells "
+              "against the stock cell equations. One genuine defect repaired (QGRUCell, fix: commit)."),
+        design_ref="DESIGN.md section 5 C11, section 10",
+        note=(TB_COMMON + "TensorFlow/Keras ops are uninterpreted (bilinearity etc. is not needed for drop-in equality). Op aliases and the "
+              "weight-attribute list of the translator are trusted; it fails closed on unknown syntax. Recurrent wrapper layers do not build "
+              "under the pinned Keras 3 (known finding): the cells are driven through their unbound call."),
+        technique="model regenerated from source by a symbolic-execution translator + Coq decision procedure with soundness proof + differential correspondence"),
 }
 
 NOT_YET = "check not built yet in this development (design in DESIGN.md section 5); not a claim that proof is inapplicable"
